@@ -577,7 +577,15 @@ def _run(run):
         t1, t4 = best(mk(n)), best(mk(4 * n))
         scal.append("%s %.1fx" % (name, t4 / max(t1, 1e-9)))
         run.count("scaling_shapes")
-        if t4 > 7 * t1 + 0.003:
+        confirmed = t4 > 7 * t1 + 0.003
+        for _ in range(3):
+            if not confirmed:
+                break
+            # timing is noisy on a loaded machine: a violation must reproduce in three fresh measurements
+            t1b, t4b = min(best(mk(n)), best(mk(n))), min(best(mk(4 * n)), best(mk(4 * n)))
+            confirmed = t4b > 7 * t1b + 0.003
+            t1, t4 = min(t1, t1b), max(min(t4, t4b), 0)
+        if confirmed:
             run.oracle_violation("superlinear-time", {"family": "scaling-" + name, "n": n, "t_n": round(t1, 5), "t_4n": round(t4, 5)},
                                  "serializable.py:deserialize_value")
     run.notes.append("MEASURED (not proved): time(4n)/time(n) per shape, n = 4096 elements: " + ", ".join(scal))
